@@ -239,6 +239,13 @@ def _instantiate(d, m, path, parent, overrides, is_top):
             issue('R3', 'parameter name %s is a reserved word' % p.name)
         if p.default is None:
             issue('R7', 'parameter %s has no default value (illegal in Verilog-2005)' % p.name)
+        if p.default is not None and lint:
+            # the default must be a constant expression over the parameters declared before it, whether or not an instance
+            # overrides it (a default that names itself or an undeclared identifier is illegal)
+            try:
+                const_eval(p.default, dict(sc.params), 'parameter default')
+            except VlogError as e:
+                issue('R7', 'default of parameter %s is not a constant expression: %s' % (p.name, e))
         if p.name in overrides:
             sc.params[p.name] = overrides[p.name]
         elif p.default is not None:
